@@ -42,6 +42,19 @@ int main(int argc, char** argv) {
       } catch (const EigenAssert& e) { printf("partial run: Eigen assertion %s\n", e.what()); bad |= 4; } catch (const std::exception&) {}
     }
   }
+  // accessors between two runs (cache reuse) and requests for a growing number of vectors (cache width)
+  if (mode & 1) for (int seed = 0; seed < 12 && !(bad & 8); seed++) for (int tall = 0; tall < 2 && !(bad & 8); tall++) {
+    std::srand(seed + 301); Eigen::MatrixXd A = tall ? Eigen::MatrixXd::Random(36, 14) : Eigen::MatrixXd::Random(14, 36);
+    try {
+      PartialSVDSolver<Eigen::MatrixXd> svds(A, 4, 9);
+      Eigen::Index n1 = svds.compute(1000, 1e-2);
+      Eigen::MatrixXd Ua = svds.matrix_U(1), Va = svds.matrix_V(4);         // first request narrower than the second
+      if (Ua.cols() != std::min<Eigen::Index>(1, n1) || Va.cols() != std::min<Eigen::Index>(4, n1)) { printf("seed %d tall %d: matrix_U(1) has %ld, matrix_V(4) has %ld columns (nconv %ld)\n", seed, tall, (long)Ua.cols(), (long)Va.cols(), (long)n1); bad |= 8; }
+      Eigen::Index n2 = svds.compute(1000, 1e-12);
+      Eigen::MatrixXd U2 = svds.matrix_U(4), V2 = svds.matrix_V(4); Eigen::VectorXd s2 = svds.singular_values();
+      if (n2 > 0 && U2.cols() == n2 && V2.cols() == n2) { double r = (A * V2 - U2 * s2.head(n2).asDiagonal()).norm(); if (r > 1e-8 * A.norm()) { printf("seed %d tall %d: accessors between two runs: after the second compute() ||A V - U S|| = %g (vectors cached from the first run)\n", seed, tall, r); bad |= 8; } }
+    } catch (const EigenAssert& e) { printf("seed %d tall %d: Eigen assertion in matrix_U/V when a later call asks for more vectors: %s\n", seed, tall, e.what()); bad |= 8; }
+  }
   if (mode & 2) {
     Eigen::MatrixXd A = Eigen::MatrixXd::Random(10, 6);
     long before = g_live; int threw = 0;
